@@ -3,14 +3,27 @@ use proc_macro2::TokenStream;
 use quote::quote;
 use syn::DeriveInput;
 
-pub fn impl_(_ctx: &Context, input: &DeriveInput) -> TokenStream {
+pub fn impl_(ctx: &Context, input: &DeriveInput) -> TokenStream {
     let self_ident = &input.ident;
+
+    // The enum tag is part of the binary representation, so it has to be portable as well.
+    let tag_check = match &ctx.info.tag_type {
+        Some(tag_type) => quote! {
+            const _: fn() = || {
+                fn assert_portable<T: ::flatty::Portable>() {}
+                assert_portable::<#tag_type>();
+            };
+        },
+        None => quote! {},
+    };
 
     let generic_params = generic::without_defaults(&input.generics).params;
     let generic_args = generic::args(&input.generics);
     let where_clause = generic::where_clause(input, quote! { ::flatty::Portable }, None);
 
     quote! {
+        #tag_check
+
         unsafe impl<#generic_params> ::flatty::Portable for #self_ident<#generic_args>
         #where_clause
         {
